@@ -88,6 +88,7 @@ static void ref_parse(const char *text, RFile *r)
         if (*l == '[' && l[strlen(l) - 1] == ']') {
             int i; char *nm; l[strlen(l) - 1] = 0; nm = rstrip(l + 1);
             for (i = 0; i < r->ns; i++) if (!strcmp(r->s[i].name, nm)) r->repeated_section = 1;
+            if (!*nm) r->repeated_section = 1;           /* blank section name: not documented, not judged */
             cur = &r->s[r->ns++]; strcpy(cur->name, nm); cur->nk = 0; continue;
         }
         eq = strchr(l, '='); if (!eq) continue;
@@ -156,6 +157,7 @@ static void run_grammar(const char *text, size_t n)
 static const char *KINDS[] = {
     "", "# c", "; c = 1", "#k=1", "[s]", "[ t ]", "k=v", "k = w", "q = \"v;#\"", "q = 'v #'", "k = v ; c", "k = v=w", "k = \"\"", "q = {a b  c}",
     "k = 12", "q = -3.5e2", "k = TRUE", "q = false", "k = 1", "  k  =  v2  ", "q = v # c", "k = {x}", "q = 0",
+    "[ ]", "[]",        /* blank section names: behaviour not documented -> robustness only */
 };
 #define NK ((int)(sizeof KINDS / sizeof KINDS[0]))
 
